@@ -793,7 +793,7 @@ def wBlobsBlocked : World :=
 def refuseAll : Params := ⟨.refuse, .refuse, .refuse⟩
 def tolerateAll : Params := ⟨.tolerate, .tolerate, .tolerate⟩
 
-/-- **defect found through this theorem (witness, model; /repo before db722e3c).** With `?` on the three storage operations
+/-- **defect found through this theorem (witness, model; /repo before 767cab50).** With `?` on the three storage operations
     (`refuseAll`) a directory at `checkpoints.jsonl` next to an INITIAL file makes the pre-commit hook refuse — status 1,
     before git, nothing changed — hence EVERY later `git commit` is refused the same way: `later_commands_work_nodes` is
     FALSE for that parameter, for each of the three operations alone (read: `wBlocked`; snapshot: `wBlobsBlocked`; append:
